@@ -146,8 +146,9 @@ def mutate(text, rng):
     return ' '.join(toks)
 
 
-def inject(rng):
-    """(rule name, text) - a small valid context with exactly one documented rule broken."""
+def inject(rng, pick=None):
+    """(rule name, text) - a small valid context with exactly one documented rule broken.  pick = (k): the k-th rule text
+    of the whole table (modulo its size) instead of a random one - so that every text is used at least once."""
     ctx_before = rng.choice(['', 'hue 5 set all\n', 'assign x 3\n', 'define M 5\n', 'define f with a begin print a end\n', 'repeat 2 begin on all end\n',
                              # variables that carry the names of the compiler's internal token classes: the text goes on after them
                              'assign eof 1\nprint eof\n', 'assign eof 2 wait eof on all eof\n', 'print eof\n', 'wait eof\n', 'on all eof\n', 'eof\n',
@@ -174,6 +175,12 @@ def inject(rng):
         'bad-time-pattern': ['time at 25:00 on all', 'time at 12:60 on all', 'time at 12:8* on all', 'time at **:08 on all', 'time at 12:5 on all',
                              'time at 3*:00 on all', 'time at 8:00 or 24:00 on all', 'time at : on all', 'time at 8:00 or on all', 'time at 99:99 wait'],
     }
+    if pick is not None:
+        table = [(name, text) for name in sorted(rules) for text in rules[name]]
+        rule, body = table[pick % len(table)]
+        if pick < len(table):
+            ctx_before = ['', 'hue 5 set all\n', 'assign x 3\n'][pick % 3]          # first round: plain contexts
+        return rule, ctx_before + body + ctx_after
     rule = rng.choice(sorted(rules))
     return rule, ctx_before + rng.choice(rules[rule]) + ctx_after
 
@@ -247,8 +254,8 @@ def run(report, replay=None):
              for i in range(60 * scale)]
     for _ in range(1500 * scale):
         inputs.append(('mutant', '', mutate(rng.choice(valid), rng)))
-    for _ in range(500 * scale):
-        rule, text = inject(rng)
+    for k in range(500 * scale):
+        rule, text = inject(rng, pick=k if k < 250 else None)      # every rule text at least once (the table has < 125), then random ones
         inputs.append(('rule', rule, text))
     for _ in range(600 * scale):
         inputs.append(('noise', '', noise(rng)))
